@@ -318,6 +318,25 @@ fn replay<C: CellType>(hist: &[Op], arm: Arm, errors: &mut Vec<String>) -> Obs {
                     errors.push(format!("check({o}) returned {:?} but the interval is {:?}", r, iv1));
                 }
             }
+            // the pointer-based bounds query used by the bytecode interpreter answers like the offset-based
+            // one: for the offset of this call and for the cells at both edges of the interval
+            let mut offs: Vec<isize> = Vec::new();
+            if let Op::Check(o) = *op {
+                offs.push(o);
+            }
+            if let Some((lo, hi)) = iv1 {
+                for a in [lo - 1, lo, hi - 1, hi] {
+                    offs.push((a - m.ptr) as isize);
+                }
+            }
+            for o in offs {
+                let by_offset = im.mem.check(o);
+                let ptr = im.mem.current_ptr().wrapping_offset(o);
+                let by_ptr = im.mem.check_ptr(ptr);
+                if by_offset != by_ptr {
+                    errors.push(format!("check({o}) is {by_offset} but check_ptr(current_ptr()+{o}) is {by_ptr} after {}", op_str(op)));
+                }
+            }
         }
     }
     // final observation for the state key
@@ -466,7 +485,7 @@ pub fn info(tier: Tier) -> CheckInfo {
             "Explicit-state breadth-first search over the real runtime::Memory<C> (C in {:?} bits), all call histories up to depth {} over \
              an alphabet of {} calls: mov(±1,±7,±1000), write(o,v) and read(o) and check(o) for o in {{0,±1,±3,±40,±5000}}, v in {{1,2}}, \
              make_accessible for six ranges (above only, below only, both sides at once, far away), and the pointer round trip \
-             set_current_ptr(current_ptr()+k). States are deduplicated on the observable state (accessible interval found by probing \
+             set_current_ptr(current_ptr()+k). After every call check_ptr(current_ptr()+o) must answer like check(o) at the call's offset and at both edges of the accessible interval. States are deduplicated on the observable state (accessible interval found by probing \
              check, contents) and rebuilt by replaying their shortest history on a fresh object under the guard-page allocator in both \
              placements. After the last call of every history: read equals the map model, reads/checks/moves never change the accessible \
              set, the set never shrinks and is one contiguous interval, requested ranges are accessible, every written cell keeps its \
